@@ -12,7 +12,8 @@ FUNCTIONS = ["gcmpy.covers.eecc.EECC.get_EECC", "EECC.limited_maximal_cliques", 
              "networkx.find_cliques (real implementation)"]
 STUBS = ["random.choice -> fresh bounded index; the chosen clique is looked up by index, so every distinct tie-break is a separate path"]
 BOUNDS = {
-    "quick": "every labelled graph without isolated vertices on 2..5 vertices x m0 in 2..6 x every tie-break sequence; every labelled 6-vertex graph at m0=2, histories on one object (cliques enumerated under another bound first) for n<=5, and on 6 "
+    "quick": "every labelled graph without isolated vertices on 2..5 vertices x m0 in 2..6 x every tie-break sequence; every labelled 6-vertex graph at m0=2, histories on one object (cliques enumerated under another bound first) for n<=5, templates on 8 vertices (K6 plus two "
+             "vertices with symbolic neighbourhoods, m0 6-7) and 9 vertices (two K4 and a triangle sharing an edge, m0 4-5), and on 6 "
              "vertices the templates 'two overlapping K4' and 'K5 plus a pendant triangle' with <= 7 free pairs at m0 in {2,3,4}",
     "thorough": "additionally every labelled graph on 6 vertices with m0 in {3,4} and the 7-vertex template 'two K4 sharing an edge' with 8 free pairs",
 }
@@ -41,6 +42,15 @@ def configs(tier):
         cfgs.append({"name": f"all-n5-m0_{m0}-reversed-insertion", "n": 5, "m0": m0, "fixed": [], "free": "all", "variant": "rev"})
         cfgs.append({"name": f"all-n5-m0_{m0}-gapped-labels", "n": 5, "m0": m0, "fixed": [], "free": "all", "variant": "gap"})
         cfgs.append({"name": f"all-n4-m0_{m0}-after-another-object", "n": 4, "m0": m0, "fixed": [], "free": "all", "variant": "warm"})
+    # larger graphs as templates: a fixed dense part plus a few symbolic pairs
+    k6 = [(a, b) for a in range(6) for b in range(a + 1, 6)]
+    free6 = [(0, 6), (2, 6), (3, 6), (4, 6)] + [(1, 7), (2, 7), (3, 7), (4, 7), (5, 7)]
+    for m0 in (6, 7) if q else (4, 5, 6, 7):
+        cfgs.append({"name": f"n8-K6plus2-m0_{m0}", "n": 8, "m0": m0, "fixed": k6, "free": free6 if q else free6 + [(1, 6), (5, 6), (0, 7), (6, 7)]})
+    two_k4_tri = [(1, 2), (1, 3), (1, 4), (2, 3), (2, 4), (3, 4), (5, 6), (5, 7), (5, 8), (6, 7), (6, 8), (7, 8), (1, 0), (2, 0)]
+    for m0 in (4, 5):
+        cfgs.append({"name": f"n9-twoK4+triangle-m0_{m0}", "n": 9, "m0": m0, "fixed": two_k4_tri,
+                     "free": [(3, 0), (4, 5), (2, 5), (0, 5), (4, 8), (0, 8)] + ([] if q else [(1, 5), (3, 6), (0, 6)])})
     k4a = [(0, 1), (0, 2), (0, 3), (1, 2), (1, 3), (2, 3)]
     k4b = [(2, 3), (2, 4), (2, 5), (3, 4), (3, 5), (4, 5)]
     k5 = [(a, b) for a in range(5) for b in range(a + 1, 5)]
